@@ -23,6 +23,7 @@ void RecursiveMutex::unlock() noexcept {
   _occupied_count--;
   if (_occupied_count == 0) {
     _owner_id = 0;
+    _queue.NotifyOne();
   }
 }
 void RecursiveMutex::LockHelper() {
